@@ -82,5 +82,48 @@ theorem onRay_iff (point d p : V3 ℝ) :
     · bool_real; num_real; exact h1
     · bool_real; num_real; exact h2
     · bool_real; num_real; exact h3
+
+/-- scalar triple product: `(d × e) · n = e · (n × d)` -/
+theorem triple (d e n : V3 ℝ) : (d.cross e).dot n = e.dot (n.cross d) := by
+  vec_real; ring
+
+/-- **the start-vertex rule, geometrically** (exact arithmetic): with the ray leaving the edge's start vertex, the edge is counted
+    exactly when it points strictly to the left of the ray, "left" being the in-plane direction `n × d` -/
+theorem crossingIncrement_start_left (normal d : V3 ℝ) (ray s : Segment ℝ)
+    (ha : Loop.onRay ray.start d s.start = true) (hb : Loop.onRay ray.start d s.stop = false) :
+    Loop.crossingIncrement normal d ray s = 1 ↔ 0 < (s.stop - s.start).dot (normal.cross d) := by
+  rw [crossingIncrement_start normal d ray s ha hb]
+  have e : (d.cross s.asVector).dot normal = (s.stop - s.start).dot (normal.cross d) := by
+    unfold Segment.asVector; exact triple d _ normal
+  constructor
+  · intro h
+    split at h
+    · rename_i hg
+      bool_real_at hg; num_real_at hg
+      rw [e] at hg; exact hg
+    · cases h
+  · intro h
+    have hg : ((d.cross s.asVector).dot normal >. (0 : ℝ)) = true := by
+      bool_real; num_real; rw [e]; exact h
+    simp [hg]
+
+/-- the end-vertex rule: counted exactly when the edge comes from the left of the ray -/
+theorem crossingIncrement_end_left (normal d : V3 ℝ) (ray s : Segment ℝ)
+    (ha : Loop.onRay ray.start d s.start = false) (hb : Loop.onRay ray.start d s.stop = true) :
+    Loop.crossingIncrement normal d ray s = 1 ↔ 0 < (s.start - s.stop).dot (normal.cross d) := by
+  rw [crossingIncrement_end normal d ray s ha hb]
+  have e : (d.cross s.asReversedVector).dot normal = (s.start - s.stop).dot (normal.cross d) := by
+    unfold Segment.asReversedVector; exact triple d _ normal
+  constructor
+  · intro h
+    split at h
+    · rename_i hg
+      bool_real_at hg; num_real_at hg
+      rw [e] at hg; exact hg
+    · cases h
+  · intro h
+    have hg : ((d.cross s.asReversedVector).dot normal >. (0 : ℝ)) = true := by
+      bool_real; num_real; rw [e]; exact h
+    simp [hg]
 end
 end G3d.C05V
